@@ -69,13 +69,17 @@ def parseF64 (s : Str) : Option FloatDen :=
             some (.fin neg mant (baseExp + (if eneg then -ev else ev)))
         else none
 
+/-- the characters `parse_f64` hands on to `f64::from_str` -/
+def floatByte (c : Char) : Bool := ('0' ≤ c && c ≤ '9') || c == '+' || c == '-' || c == '.' || c == 'e' || c == 'E'
+
 /-- `parse_f64` of loader.rs -/
 def parseF64Yaml (s : Str) : Option FloatDen :=
   let str := String.ofList s
   if str = ".inf" ∨ str = ".Inf" ∨ str = ".INF" ∨ str = "+.inf" ∨ str = "+.Inf" ∨ str = "+.INF" then some (.inf false)
   else if str = "-.inf" ∨ str = "-.Inf" ∨ str = "-.INF" then some (.inf true)
   else if str = ".nan" ∨ str = ".NaN" ∨ str = ".NAN" then some .nan
-  else parseF64 s
+  else if s.all floatByte then parseF64 s
+  else none
 
 inductive Scalar
   | null | bool (b : Bool) | int (i : Int) | float (f : FloatDen) | string (s : Str)
@@ -83,17 +87,20 @@ deriving Repr, DecidableEq
 
 def stripPrefix (p s : Str) : Option Str := if p.isPrefixOf s then some (s.drop p.length) else none
 
-/-- `Scalar::parse_from_cow` (scalar.rs:150-178), as written -/
+/-- the digits after a `0x`, `0o` or `+` prefix may not carry a sign of their own -/
+def unsignedDigits (n : Str) : Bool := n.head? != some '+' && n.head? != some '-'
+
+/-- `Scalar::parse_from_cow` (scalar.rs), as written -/
 def parseFromCow (v : Str) : Scalar :=
   let early : Option Scalar :=
     match stripPrefix ['0', 'x'] v with
-    | some n => (fromStrRadix n 16).map .int
+    | some n => if unsignedDigits n then (fromStrRadix n 16).map .int else none
     | none =>
       match stripPrefix ['0', 'o'] v with
-      | some n => (fromStrRadix n 8).map .int
+      | some n => if unsignedDigits n then (fromStrRadix n 8).map .int else none
       | none =>
         match stripPrefix ['+'] v with
-        | some n => (fromStrRadix n 10).map .int
+        | some n => if unsignedDigits n then (fromStrRadix n 10).map .int else none
         | none => none
   match early with
   | some r => r
